@@ -423,6 +423,12 @@ def scans(ctx):
     tw = pyvc.find_function(tree, 'transaction.transformer.wrapper')
     decs = _decorators(tw)
     ctx.add(core.decided('C27/transaction/wrapper-is-retried-as-a-whole', 'retry_transient_mysql_errors' in decs and decs.index('retry_transient_mysql_errors') == len(decs) - 1, repr(decs), kind='scan'))
+    # one transaction PER ATTEMPT AND PER CALL: the context manager entered by the wrapper is created inside the wrapper by
+    # db.start(...) (a manager shared between calls keeps the current transaction in one field: overlapping calls of the same
+    # decorated function would then commit / roll back each other's transaction)
+    withs = [n for n in pyast.walk(tw) if isinstance(n, (pyast.AsyncWith, pyast.With))]
+    fresh = bool(withs) and all(isinstance(i.context_expr, pyast.Call) and pyvc._dotted(i.context_expr.func) == 'db.start' for w in withs for i in w.items)
+    ctx.add(core.decided('C27/transaction/every-call-opens-its-own-transaction-context', fresh, repr([pyast.unparse(i.context_expr) for w in withs for i in w.items]), kind='scan'))
     tf = pyvc.find_function(tree, 'transaction.transformer')
     rets = [pyast.unparse(n.value) for n in pyast.walk(tf) if isinstance(n, pyast.Return) and n.value is not None and n in tf.body]
     ctx.add(core.decided('C27/transaction/transformer-returns-the-retrying-wrapper', rets == ['wrapper'], repr(rets), kind='scan'))
@@ -470,6 +476,7 @@ def native_witness(ctx):
 
 
 def build(ctx):
+    scans(ctx)  # first: AST obligations stand even if a changed body leaves the executor's subset
     e = pyvc.Engine(ctx, classifier()).run()
     _strict(ctx, e, 'exception_log_level_if_retryable')
     e = pyvc.Engine(ctx, retry_wrapper()).run()
@@ -483,7 +490,6 @@ def build(ctx):
         c.calls.setdefault('truthy', _truthy_fn)
         e = pyvc.Engine(ctx, c).run()
         _strict(ctx, e, c.qualname)
-    scans(ctx)
     import os
 
     ctx.witness_search = lambda: core.run_native(open(os.path.join(os.path.dirname(__file__), 'native', 'c27_replay.py')).read(), {})
